@@ -17,7 +17,7 @@ property and a scratch worktree (nothing from `/verif`): two per property in a f
 were told which ideas had been used already and asked for subtler ones (`M<nn>-<k>`, the
 property is C<nn>), and two more per property in a fourth (`N<nn>-<k>`), a fifth and a sixth round (`P<nn>-<k>`,
 `Q<nn>-<k>`; there the agents were told what kind of harness they were up against and to aim
-at its blind spots). Each was confirmed here in a scratch worktree
+at its blind spots), and one more per property in a seventh round (`R<nn>-1`). Each was confirmed here in a scratch worktree
 (`tools/evalseed.sh`): the patch applies to `/repo` HEAD and builds with and without the
 tag, the 233 baseline tests still pass with it, the agent's demonstration fails with the
 change and passes without it, and the property's quick check reports a violation against
